@@ -104,6 +104,65 @@ def main():
         if sorted(d) != sorted(POLICIES):
             die("%s: arms cover %s, expected exactly the five policies" % (name, sorted(d)))
 
+    # ---- shapes: guards, argument orders and conditions the hand-written models copy (normalised text)
+    def norm(t):
+        return re.sub(r"\s+", "", t)
+
+    def read(rel):
+        try:
+            return re.sub(r"(?m)^\s*//[^\n]*$", "", open(os.path.join(repo, rel)).read())
+        except OSError as e:
+            die(str(e))
+
+    hash_rs = read("lib/src/crypto/hash.rs")
+    pkey_rs = read("lib/src/crypto/pkey.rs")
+    chan_rs = read("lib/src/core/comms/secure_channel.rs")
+    store_rs = read("lib/src/crypto/certificate_store.rs")
+    shape = []
+
+    def grab(key, body, regex, fn):
+        ms = re.findall(regex, body, re.S)
+        if not ms:
+            die("%s: pattern for %s not found" % (fn, key))
+        shape.append((key, "|".join(norm(m if isinstance(m, str) else ",".join(m)) for m in ms)))
+
+    b = fn_body(sp_nc, "make_secure_channel_keys")
+    grab("keys.prf_calls", b, r"self\.prf\(([^;]*?)\);", "make_secure_channel_keys")
+    b = fn_body(chan_rs, "derive_keys")
+    grab("derive.remote_then_local", b, r"self\.(remote_keys|local_keys) = Some\(\s*self\.security_policy\s*\.make_secure_channel_keys\(([^)]*)\)", "derive_keys")
+    b = fn_body(sp_nc, "prf")
+    grab("prf.slice", b, r"hash::p_sha\(([^;]*)\);\s*result\[([^\]]*)\]", "prf")
+    b = fn_body(hash_rs, "p_sha")
+    grab("p_sha.loop", b, r"while ([^{]*)\{", "p_sha")
+    grab("p_sha.a_next", b, r"let a_next = ([^;]*);", "p_sha")
+    grab("p_sha.block", b, r"hmac\.extend\(([^)]*)\);\s*hmac\.extend_from_slice\(([^)]*)\);", "p_sha")
+    grab("p_sha.truncate", b, r"result\.truncate\(([^)]*)\)", "p_sha")
+    b = fn_body(hash_rs, "hmac_vec")
+    grab("hmac_vec.empty_key", b, r"let key = ([^;]*);", "hmac_vec")
+    b = fn_body(pkey_rs, "plain_text_block_size")
+    grab("ptbs.arms", b, r"RsaPadding::(\w+) => self\.size\(\) - (\d+)", "plain_text_block_size")
+    b = fn_body(pkey_rs, "calculate_cipher_text_size")
+    grab("ctsize.count", b, r"let block_count = (.*?);\s*block_count \* ([^\n}]*)", "calculate_cipher_text_size")
+    b = fn_body(ui, "legacy_password_decrypt")
+    grab("decrypt.guards", b, r"\bif ([^{]*)\{", "legacy_password_decrypt")
+    grab("decrypt.nonce_begin", b, r"let nonce_begin = ([^;]*);", "legacy_password_decrypt")
+    grab("decrypt.slices", b, r"&dst\[([^\]]*)\]", "legacy_password_decrypt")
+    b = fn_body(ui, "legacy_password_encrypt")
+    grab("encrypt.size_and_length_field", b, r"let plaintext_size = ([^;]*);.*?write_u32\(&mut src, ([^)]*\))", "legacy_password_encrypt")
+    b = fn_body(cm_nc, "concat_data_and_nonce")
+    grab("concat.order", b, r"buffer\.extend_from_slice\((\w+)\)", "concat_data_and_nonce")
+    b = fn_body(cm_nc, "create_signature_data")
+    grab("create.guard_and_data", b, r"if ([^{]*)\{.*?concat_data_and_nonce\(([^;]*)\);", "create_signature_data")
+    b = fn_body(cm_nc, "verify_signature_data")
+    grab("verify.data", b, r"concat_data_and_nonce\(([^;]*)\);", "verify_signature_data")
+    b = fn_body(store_rs, "validate_or_reject_application_instance_cert")
+    grab("reject.not_stored_for", b, r"match result \{(.*?)=>", "validate_or_reject_application_instance_cert")
+    b = fn_body(store_rs, "validate_application_instance_cert")
+    grab("validate.returns_in_order", b, r"return (StatusCode::\w+|status_code)", "validate_application_instance_cert")
+    grab("validate.conditions_in_order", b, r"\bif ([^{]*)\{", "validate_application_instance_cert")
+    b = fn_body(sp_nc, "is_valid_keylength")
+    grab("keylength.range", b, r"(keylength [^\n]*)", "is_valid_keylength")
+
     def nat(s):
         if not re.fullmatch(r"\d+", s):
             die("not a number: %r" % s)
@@ -155,6 +214,11 @@ def main():
         if a not in algs:
             die("unknown algorithm constant %s" % a)
     L.append("def tokenUriPadding : List (String × String) := [" + ", ".join('("%s", "%s")' % (algs[a], pd) for a, pd in tok_pad) + "]")
+    L.append("")
+    L.append("/-- normalised source text of the guards, argument orders and conditions the hand-written models copy -/")
+    L.append("def shape : List (String × String) := [")
+    L.append(",\n".join('  ("%s", "%s")' % (k, v.replace("\\", "\\\\").replace('"', '\\"')) for k, v in shape))
+    L.append("]")
     L.append("")
     L.append("def lookup {α : Type} (t : List (String × α)) (k : String) : Option α := (t.find? (·.1 == k)).map (·.2)")
     L.append("")
